@@ -101,7 +101,11 @@ def _constructor(ctx: Ctx) -> None:
     ls = LoopSummariser()
     ev = make_evaluator(repo, new, extra_call=py_calls, loop_hook=ls.hook)
     ev.int_transparent = True
-    watch = {"is_symmetric"}
+    # the local flag that is stored as the `is_symmetric` attribute
+    watch = {next((s_.value.id for s_ in ast.walk(new.node) if isinstance(
+        s_, ast.Assign) and len(s_.targets) == 1 and isinstance(
+        s_.targets[0], ast.Attribute) and s_.targets[0].attr ==
+        "is_symmetric" and isinstance(s_.value, ast.Name)), "is_symmetric")}
     gw = GuardWalk(ev, ls, watch)
     env = gw.walk(Env(), func_body(new))
     mat = "matrix"
@@ -161,6 +165,17 @@ def _constructor(ctx: Ctx) -> None:
                "" if okl else "; expected max(given, sum_i min_{j != i} "
                "matrix[i, j]) with an initial value above every entry"),
            construct="tour_length_lower_bound")
+    # the locals that end up in the attributes (by use, not by spelling)
+    def local_of_attr(attr: str) -> str | None:
+        for s_ in ast.walk(new.node):
+            if isinstance(s_, ast.Assign) and len(s_.targets) == 1 and \
+                    isinstance(s_.targets[0], ast.Attribute) and \
+                    s_.targets[0].attr == attr and isinstance(
+                    s_.value, ast.Name):
+                return s_.value.id
+        return None
+    ub_local = local_of_attr("tour_length_upper_bound") or "upper_bound"
+    sym_local = local_of_attr("is_symmetric") or "is_symmetric"
     # ---------------- D5.2 cap
     cap_ok = False
     cap_node: ast.AST = new.node
@@ -168,7 +183,7 @@ def _constructor(ctx: Ctx) -> None:
         if isinstance(c, ast.Call) and isinstance(c.func, ast.Name) and \
                 c.func.id == "check_int_range" and len(c.args) >= 4 and \
                 isinstance(c.args[0], ast.Name) and \
-                c.args[0].id == "upper_bound":
+                c.args[0].id == ub_local:
             hi = repo.const(new.module, c.args[3])
             if isinstance(hi, int) and hi < 2**62:
                 cap_ok = True
@@ -197,7 +212,7 @@ def _constructor(ctx: Ctx) -> None:
            if rej else "no rejection of `farthest_neighbor <= 0`",
            construct="positive entry per row", nontrivial=False)
     # ---------------- symmetry flag
-    marks = [m for m in gw.marks if m.name == "is_symmetric"]
+    marks = [m for m in gw.marks if m.name == sym_local]
     init = [m for m in marks if not m.loops]
     clears = [m for m in marks if m.loops]
     ok_init = len(init) == 1 and init[0].value == ("true",)
